@@ -303,6 +303,12 @@ local ignored_stringfy_keys = {
 
 -- Helper to convert a node value to a string.
 local function stringfy_val2str(val)
+  local valtype = type(val)
+  if (valtype == 'table' or valtype == 'userdata') and not (getmetatable(val) or {}).__tostring or
+     valtype == 'function' or valtype == 'thread' then
+    -- tostring() would print the object's address, which is not a function of the input
+    return pegger.double_quote_lua_string(valtype)
+  end
   local vstr = tostring(val)
   if traits.is_number(val) or traits.is_boolean(val) or val == nil then
     return vstr
